@@ -3,6 +3,7 @@ package main
 // Per-function verification context: prelude management, loops, obligations.
 
 import (
+	"sync"
 	"fmt"
 	"go/token"
 	"go/types"
@@ -63,6 +64,7 @@ type FnExec struct {
 	nObl       int
 	abstracted []string
 	name       string
+	usedGhosts map[int]bool
 }
 
 type modEntry struct {
@@ -131,8 +133,12 @@ func (fe *FnExec) typeCodeOf(t types.Type) Term {
 	return fe.typeCodeByName(t.String())
 }
 
+var globalTypeCodesMu sync.Mutex
+
 func (fe *FnExec) typeCodeByName(name string) Term {
 	name = fe.P.canonTypeName(name)
+	globalTypeCodesMu.Lock()
+	defer globalTypeCodesMu.Unlock()
 	c, ok := globalTypeCodes[name]
 	if !ok {
 		c = len(globalTypeCodes) + 1
